@@ -63,10 +63,8 @@ func c10StartTLS(h *H) {
 					done <- err
 				}()
 				select {
-				case err := <-done:
-					if err == nil {
-						h.Fail("success-without-completion:starttls", "NewStartTLS reported success although no TLS session can have been established", desc)
-					}
+				case <-done:
+					// returned (the TLS handshake itself is lazy: a nil error says nothing about it)
 				case <-time.After(8 * time.Second):
 					h.Fail("call-hangs:starttls:"+then, fmt.Sprintf("NewStartTLS did not return within 8 s (tagged %q and %q sent in one write, then %s)", status, suffix, then), desc)
 					cli.Close()
